@@ -131,7 +131,7 @@ def frac_str(v) -> str:
     while dd % 5 == 0:
         dd //= 5
         k5 += 1
-    if dd == 1:
+    if dd == 1 and max(k2, k5) <= 12:
         return f"{float(v):.{max(k2, k5)}f}"
     return repr(float(v))
 
@@ -352,8 +352,13 @@ def gen_forall(rng, w, scope, depth=1, numeric=True, equality=True, **kw):
 # effects
 # ------------------------------------------------------------------------------------------
 def gen_simple_effect(rng, w, scope, numeric=True, must_mention=None, **kw):
-    if numeric and w.funcs and rng.random() < 0.35 and not must_mention:
-        tgt = gen_fluent_term(rng, w, scope, use_constants=0.0)
+    if numeric and w.funcs and rng.random() < 0.35:
+        tgt = None
+        for _ in range(4):
+            tgt = gen_fluent_term(rng, w, scope, use_constants=0.0)
+            if tgt is None or not must_mention or must_mention in tgt:
+                break
+            tgt = None
         if tgt:
             op = rng.choice(["assign", "increase", "decrease"])
             return [op, tgt, gen_num_expr(rng, w, scope, rng.choice([0, 1, 1]), **kw)]
@@ -379,7 +384,7 @@ def gen_effect(rng, w, scope, when=True, forall=True, numeric=True, n=None, **kw
             ty = rng.choice(tys)
             sc2 = scope + [("?o", ty)]
             cond = gen_when_condition(rng, w, sc2, numeric=numeric, must_mention="?o", **kw)
-            effs = [e for e in (gen_simple_effect(rng, w, sc2, numeric=False, must_mention="?o", **kw) for _ in range(rng.randint(1, 2))) if e]
+            effs = [e for e in (gen_simple_effect(rng, w, sc2, numeric=numeric, must_mention="?o", **kw) for _ in range(rng.randint(1, 2))) if e]
             if cond and effs:
                 out.append(["forall", ["?o", "-", ty], ["when", cond, effs[0] if len(effs) == 1 and rng.random() < 0.5 else ["and"] + effs]])
         else:
@@ -588,7 +593,7 @@ def statically_consistent(eff) -> bool:
 # ------------------------------------------------------------------------------------------
 # plan worlds and steered random walks (C04, C10, C15, C16)
 # ------------------------------------------------------------------------------------------
-def gen_plan_world(rng, numeric=True, n_actions=None, forall=True, when=True, max_arity=2) -> W:
+def gen_plan_world(rng, numeric=True, n_actions=None, forall=True, when=True, max_arity=2, numeric_actions=True) -> W:
     """a world whose actions have simple (mostly satisfiable) preconditions and statically consistent effects"""
     w = gen_world(rng, numeric=numeric, max_arity=max_arity, n_objs=rng.randint(3, 4))
     acts = []
@@ -599,10 +604,10 @@ def gen_plan_world(rng, numeric=True, n_actions=None, forall=True, when=True, ma
         params = gen_params(rng, w)
         pre = ["and"]
         for _ in range(rng.choice([0, 1, 1, 2])):
-            lf = gen_leaf(rng, w, params, numeric=numeric and rng.random() < 0.5, equality=True)
+            lf = gen_leaf(rng, w, params, numeric=numeric and numeric_actions and rng.random() < 0.5, equality=True)
             if lf:
                 pre.append(lf)
-        eff = gen_effect(rng, w, params, when=when, forall=forall, numeric=numeric, n=rng.randint(1, 3), use_constants=0.1)
+        eff = gen_effect(rng, w, params, when=when, forall=forall, numeric=numeric and numeric_actions, n=rng.randint(1, 3), use_constants=0.1)
         if len(eff) > 1 and statically_consistent(eff):
             acts.append({"name": f"act{len(acts)}", "params": params, "pre": pre, "eff": eff})
     w.actions = acts
@@ -640,6 +645,8 @@ def steered_walk(rng, wm, dom_m, st0, length, p_invalid=0.3, calls_cache=None):
                     continue
                 if nxt is not None and set(nxt[1]) != set(st[1]):
                     continue  # never define a new fluent on the way (keeps the repeated-argument finding's collisions out)
+                if nxt is not None and any(abs(v) > 2 ** 20 or v.denominator > 2 ** 20 for v in nxt[1].values()):
+                    continue  # stay where binary floating point is exact (no overflow, no lost low bits)
                 cands.append((an, call, nxt))
         if not cands:
             break
